@@ -35,14 +35,18 @@ def sanitize_python_code(expr: str) -> str:
     expr = format_expr(
         sanitize_variable_names(expr, {}, aliases, template="_formulaic_{}")
     )
-    while aliases:
-        alias, orig = aliases.popitem()
-        # Replace whole identifiers only (quoted names that are valid
-        # identifiers are their own alias and may occur inside other names),
-        # and leave string literals alone.
+    if aliases:
+        # Restore all quoted names in ONE pass (restored text must not be
+        # scanned again: `foo` occurs inside `foo bar`), replacing whole
+        # identifiers only (a quoted name that is a valid identifier is its own
+        # alias and may occur inside other names) and leaving string literals
+        # alone.
+        pattern = "|".join(
+            re.escape(alias) for alias in sorted(aliases, key=len, reverse=True)
+        )
         expr = re.sub(
-            rf"(?P<string>{STRING_LITERAL})|(?<![\w.]){re.escape(alias)}(?!\w)",
-            lambda match, orig=orig: match.group("string") or f"`{orig}`",
+            rf"(?P<string>{STRING_LITERAL})|(?<![\w.])(?P<alias>{pattern})(?!\w)",
+            lambda match: match.group("string") or f"`{aliases[match.group('alias')]}`",
             expr,
         )
     return expr
